@@ -207,6 +207,7 @@ func (h *Server) handle(ctx *fasthttp.RequestCtx) {
 	h.Running--
 	h.S.MarkDone(ctx)
 	call.Returned = true
+	call.ctx = nil // the harness must not be what keeps a finished request's context alive
 	if r.Panic {
 		panic("handler panic requested by the scenario")
 	}
@@ -563,6 +564,20 @@ func Gauge() map[string]int {
 	for _, p := range vsched.Pools() {
 		if p.Name != "" {
 			m[p.Name] += p.Outstanding()
+		}
+	}
+	return m
+}
+
+// GaugeReachable is Gauge after a settled garbage collection, counting only the
+// objects the program can still reach (needs vsched.TrackLive): an object that
+// was simply not given back to its pool is garbage, not per-connection state.
+func GaugeReachable() map[string]int {
+	vsched.SettleGC()
+	m := map[string]int{}
+	for _, p := range vsched.Pools() {
+		if p.Name != "" {
+			m[p.Name] += p.Reachable()
 		}
 	}
 	return m
